@@ -1,7 +1,8 @@
 (* ShapeProofs.v — property C01: proofs about the rule-free fragment (Schema/Shape.v).
    The operational validator model [validate] accepts exactly the documents of the example's
-   shape ([shape_ok]), for every schema without a nullable container; without that hypothesis
-   only soundness ([validate] accepts -> [shape_ok]) holds (known finding C01-nullable-container). *)
+   shape ([shape_ok]), for every schema, unconditionally.  (Before fix 3827ce7 a nullable
+   container refused null and the equivalence needed the hypothesis [no_nullable_container];
+   the former finding C01-nullable-container is repaired and the hypothesis is gone.) *)
 From Coq Require Import List NArith Bool Arith Lia Permutation.
 From Coq Require Import Strings.Byte.
 Import ListNotations.
@@ -193,10 +194,16 @@ Proof.
 Qed.
 
 Lemma validate_obj_other : forall ms nl v, (forall dms, v <> JObj dms) ->
-  validate (SObj ms nl false) v = Some E_LEX_OBJECT.
+  validate (SObj ms nl false) v = container_mismatch nl E_LEX_OBJECT v.
 Proof.
-  intros ms nl v H. destruct v; try reflexivity. exfalso. apply (H ms0). reflexivity.
+  intros ms nl v H. destruct v as [| | | | |xs|dms]; try reflexivity.
+  exfalso. apply (H dms). reflexivity.
 Qed.
+
+(* the one-leaf case: the old "unexpected lexeme" error *)
+Lemma validate_obj_other_nn : forall ms v, (forall dms, v <> JObj dms) ->
+  validate (SObj ms false false) v = Some E_LEX_OBJECT.
+Proof. intros ms v H. rewrite (validate_obj_other ms false v H). reflexivity. Qed.
 
 Lemma validate_arr_arr : forall items nl xs,
   validate (SArr items nl false) (JArr xs) = elems_loop items xs 0.
@@ -208,9 +215,23 @@ Proof.
 Qed.
 
 Lemma validate_arr_other : forall items nl v, (forall xs, v <> JArr xs) ->
-  validate (SArr items nl false) v = Some E_LEX_ARRAY.
+  validate (SArr items nl false) v = container_mismatch nl E_LEX_ARRAY v.
 Proof.
-  intros items nl v H. destruct v; try reflexivity. exfalso. apply (H xs). reflexivity.
+  intros items nl v H. destruct v as [| | | | |xs|dms]; try reflexivity.
+  exfalso. apply (H xs). reflexivity.
+Qed.
+
+Lemma validate_arr_other_nn : forall items v, (forall xs, v <> JArr xs) ->
+  validate (SArr items false false) v = Some E_LEX_ARRAY.
+Proof. intros items v H. rewrite (validate_arr_other items false v H). reflexivity. Qed.
+
+(* [container_mismatch] accepts exactly null under nullable *)
+Lemma container_mismatch_none : forall nl e v,
+  container_mismatch nl e v = None <-> (nl = true /\ v = JNull).
+Proof.
+  intros nl e v. destruct nl; destruct v; cbn [container_mismatch]; split;
+    try (intros H; discriminate H); try (intros [H1 H2]; discriminate);
+    try (intros _; split; reflexivity); intros _; reflexivity.
 Qed.
 
 (* unfolding equations of [shape_ok] *)
@@ -310,83 +331,72 @@ Qed.
 (* the agreement of [validate] and [shape_ok]                          *)
 (* ------------------------------------------------------------------ *)
 Definition agree_at (n : snode) (v : jval) : Prop :=
-  (validate n v = None -> shape_ok n v = true) /\
-  (no_nullable_container n = true -> shape_ok n v = true -> validate n v = None).
+  validate n v = None <-> shape_ok n v = true.
 
 Definition agree (v : jval) : Prop := forall n, agree_at n v.
 
 Lemma agree_any : forall n v, is_any n = true -> agree_at n v.
 Proof.
-  intros n v H. split; intros; [apply shape_any|apply validate_any]; exact H.
+  intros n v H. split; intros _; [apply shape_any|apply validate_any]; exact H.
 Qed.
 
 Lemma agree_lit : forall k nl v, agree_at (SLit k nl false) v.
 Proof.
   intros k nl v. unfold agree_at. rewrite validate_lit, shape_lit.
   destruct (is_container v); destruct (lit_kind_ok k nl v); cbn [negb andb];
-    split; intros; try reflexivity; try discriminate; assumption.
+    split; intros H; try reflexivity; discriminate H.
 Qed.
 
 Lemma agree_obj_other : forall ms nl v, (forall dms, v <> JObj dms) -> agree_at (SObj ms nl false) v.
 Proof.
   intros ms nl v H. unfold agree_at. rewrite (validate_obj_other ms nl v H).
-  split; [intros H0; discriminate H0|].
-  cbn [no_nullable_container orb]. intros Hn Hs. exfalso.
-  apply andb_true_iff in Hn. destruct Hn as [Hnl _].
-  destruct v; cbn [shape_ok] in Hs; try discriminate Hs.
-  - subst nl. discriminate Hnl.
-  - apply (H ms0). reflexivity.
+  destruct v as [| | | | |xs|dms];
+    try (destruct nl; cbn [container_mismatch shape_ok]; split; intros H0;
+         try reflexivity; discriminate H0).
+  exfalso. apply (H dms). reflexivity.
 Qed.
 
 Lemma agree_arr_other : forall items nl v, (forall xs, v <> JArr xs) -> agree_at (SArr items nl false) v.
 Proof.
   intros items nl v H. unfold agree_at. rewrite (validate_arr_other items nl v H).
-  split; [intros H0; discriminate H0|].
-  cbn [no_nullable_container orb]. intros Hn Hs. exfalso.
-  apply andb_true_iff in Hn. destruct Hn as [Hnl _].
-  destruct v; cbn [shape_ok] in Hs; try discriminate Hs.
-  - subst nl. discriminate Hnl.
-  - apply (H xs). reflexivity.
+  destruct v as [| | | | |xs|dms];
+    try (destruct nl; cbn [container_mismatch shape_ok]; split; intros H0;
+         try reflexivity; discriminate H0).
+  exfalso. apply (H xs). reflexivity.
 Qed.
 
 Lemma members_agree : forall ms dms, Forall (fun m => agree (snd m)) dms -> forall req,
-  (members_loop ms dms req = None -> keys_present dms req = true /\ all_members ms dms = true) /\
-  (forallb (fun m => no_nullable_container (snd m)) ms = true ->
-   keys_present dms req = true -> all_members ms dms = true -> members_loop ms dms req = None).
+  members_loop ms dms req = None <-> (keys_present dms req = true /\ all_members ms dms = true).
 Proof.
   intros ms dms HF. induction HF as [|[key x] r Hx HF IH]; intros req.
   - cbn [members_loop all_members]. destruct req as [|k req].
-    + split; [intros _; split; reflexivity|intros _ _ _; reflexivity].
+    + split; [intros _; split; reflexivity|intros _; reflexivity].
     + split; [intros H; discriminate H|].
-      intros _ H _. apply keys_present_nil in H. discriminate H.
+      intros [H _]. apply keys_present_nil in H. discriminate H.
   - cbn [members_loop all_members]. rewrite keys_present_cons. cbn [snd] in Hx.
     destruct (find_member key ms) as [child|] eqn:Hf.
     + destruct (Hx child) as [Hs Hc]. destruct (IH (remove_key key req)) as [IH1 IH2]. split.
       * destruct (validate child x) as [e|] eqn:Hv; [intros H; discriminate H|].
         intros H. apply IH1 in H. destruct H as [Hk Ha]. split; [exact Hk|].
-        rewrite Hs, Ha; reflexivity.
-      * intros Hn Hk Ha. apply andb_true_iff in Ha. destruct Ha as [Ha1 Ha2].
-        rewrite Hc; [apply IH2; assumption| |exact Ha1].
-        eapply find_member_nnc; [exact Hn|exact Hf].
-    + split; [intros H; discriminate H|]. intros _ _ H. discriminate H.
+        rewrite (Hs eq_refl), Ha. reflexivity.
+      * intros [Hk Ha]. apply andb_true_iff in Ha. destruct Ha as [Ha1 Ha2].
+        rewrite (Hc Ha1). apply IH2. split; assumption.
+    + split; [intros H; discriminate H|]. intros [_ H]. discriminate H.
 Qed.
 
 Lemma elems_agree : forall items xs, Forall agree xs -> forall i,
-  (elems_loop items xs i = None -> all_elems items xs i = true) /\
-  (forallb no_nullable_container items = true ->
-   all_elems items xs i = true -> elems_loop items xs i = None).
+  elems_loop items xs i = None <-> all_elems items xs i = true.
 Proof.
   intros items xs HF. induction HF as [|x r Hx HF IH]; intros i.
-  - cbn [elems_loop all_elems]. split; intros; reflexivity.
+  - cbn [elems_loop all_elems]. split; intros _; reflexivity.
   - cbn [elems_loop all_elems].
     destruct (last_or items i) as [child|] eqn:Hl.
     + destruct (Hx child) as [Hs Hc]. destruct (IH (S i)) as [IH1 IH2]. split.
       * destruct (validate child x) as [e|] eqn:Hv; [intros H; discriminate H|].
-        intros H. apply IH1 in H. rewrite Hs, H; reflexivity.
-      * intros Hn Ha. apply andb_true_iff in Ha. destruct Ha as [Ha1 Ha2].
-        rewrite Hc; [apply IH2; assumption| |exact Ha1].
-        eapply last_or_nnc; [exact Hn|exact Hl].
-    + split; [intros H; discriminate H|]. intros _ H. discriminate H.
+        intros H. apply IH1 in H. rewrite (Hs eq_refl), H. reflexivity.
+      * intros Ha. apply andb_true_iff in Ha. destruct Ha as [Ha1 Ha2].
+        rewrite (Hc Ha1). apply IH2. exact Ha2.
+    + split; intros H; discriminate H.
 Qed.
 
 Lemma agree_obj_obj : forall ms nl dms, Forall (fun m => agree (snd m)) dms ->
@@ -395,21 +405,14 @@ Proof.
   intros ms nl dms HF. unfold agree_at. rewrite validate_obj_obj, shape_obj_obj.
   destruct (members_agree ms dms HF (required_keys ms)) as [H1 H2]. split.
   - intros H. apply H1 in H. destruct H as [Hk Ha]. rewrite Hk, Ha. reflexivity.
-  - cbn [no_nullable_container orb]. intros Hn Hs.
-    apply andb_true_iff in Hn. destruct Hn as [_ Hn].
-    apply andb_true_iff in Hs. destruct Hs as [Hk Ha].
-    apply H2; assumption.
+  - intros Hs. apply andb_true_iff in Hs. apply H2. exact Hs.
 Qed.
 
 Lemma agree_arr_arr : forall items nl xs, Forall agree xs ->
   agree_at (SArr items nl false) (JArr xs).
 Proof.
   intros items nl xs HF. unfold agree_at. rewrite validate_arr_arr, shape_arr_arr.
-  destruct (elems_agree items xs HF 0) as [H1 H2]. split.
-  - exact H1.
-  - cbn [no_nullable_container orb]. intros Hn Hs.
-    apply andb_true_iff in Hn. destruct Hn as [_ Hn].
-    apply H2; assumption.
+  exact (elems_agree items xs HF 0).
 Qed.
 
 Lemma agree_scalar : forall v, is_container v = false -> agree v.
@@ -439,21 +442,45 @@ Qed.
 (* ------------------------------------------------------------------ *)
 (* the theorems                                                        *)
 (* ------------------------------------------------------------------ *)
+(* unconditional since fix 3827ce7 *)
+Theorem validate_iff_shape : forall n v, validate n v = None <-> shape_ok n v = true.
+Proof. intros n v. exact (agree_all v n). Qed.
+
+(* the soundness half (the name dates from when completeness failed on nullable containers) *)
 Theorem validate_shape_disagree_only_nullable : forall n v,
   (validate n v = None -> shape_ok n v = true).
-Proof. intros n v. exact (proj1 (agree_all v n)). Qed.
+Proof. intros n v. exact (proj1 (validate_iff_shape n v)). Qed.
 
-Theorem validate_iff_shape : forall n v, no_nullable_container n = true ->
-  (validate n v = None <-> shape_ok n v = true).
+Theorem shape_implies_validate : forall n v, shape_ok n v = true -> validate n v = None.
+Proof. intros n v. exact (proj2 (validate_iff_shape n v)). Qed.
+
+(* replaces the former finding [nullable_container_refuted] *)
+Theorem nullable_container_accepts_null : forall ms items an,
+  validate (SObj ms true an) JNull = None /\ validate (SArr items true an) JNull = None.
+Proof. intros ms items an. destruct an; split; reflexivity. Qed.
+
+Theorem non_nullable_container_rejects_null : forall ms items,
+  validate (SObj ms false false) JNull = Some E_LEX_OBJECT /\
+  validate (SArr items false false) JNull = Some E_LEX_ARRAY.
+Proof. intros ms items. split; reflexivity. Qed.
+
+(* the error codes of the two-leaf outcome (nullable container, document of another kind) *)
+Theorem nullable_container_mismatch_codes : forall ms items v,
+  (forall dms, v <> JObj dms) -> (forall xs, v <> JArr xs) -> v <> JNull ->
+  validate (SObj ms true false) v = Some E_VALUE_TYPE /\
+  validate (SArr items true false) v = Some E_VALUE_TYPE /\
+  validate (SObj ms true false) (JArr []) = Some E_OR_RULE_SET /\
+  validate (SArr items true false) (JObj []) = Some E_OR_RULE_SET.
 Proof.
-  intros n v Hn. split.
-  - exact (proj1 (agree_all v n)).
-  - exact (proj2 (agree_all v n) Hn).
+  intros ms items v Ho Ha Hn. destruct v as [| | | | |xs|dms].
+  - exfalso. apply Hn. reflexivity.
+  - repeat split; reflexivity.
+  - repeat split; reflexivity.
+  - repeat split; reflexivity.
+  - repeat split; reflexivity.
+  - exfalso. apply (Ha xs). reflexivity.
+  - exfalso. apply (Ho dms). reflexivity.
 Qed.
-
-Theorem nullable_container_refuted :
-  exists n v, shape_ok n v = true /\ validate n v = Some E_LEX_OBJECT.
-Proof. exists (SObj [] true false), JNull. split; reflexivity. Qed.
 
 (* ------------------------------------------------------------------ *)
 (* order of the document's properties                                  *)
@@ -503,12 +530,11 @@ Proof.
     reflexivity.
 Qed.
 
-Theorem validate_perm : forall ms nl an dms dms',
-  no_nullable_container (SObj ms nl an) = true -> Permutation dms dms' ->
+Theorem validate_perm : forall ms nl an dms dms', Permutation dms dms' ->
   (validate (SObj ms nl an) (JObj dms) = None <-> validate (SObj ms nl an) (JObj dms') = None).
 Proof.
-  intros ms nl an dms dms' Hn HP.
-  rewrite (validate_iff_shape _ (JObj dms) Hn), (validate_iff_shape _ (JObj dms') Hn).
+  intros ms nl an dms dms' HP.
+  rewrite (validate_iff_shape _ (JObj dms)), (validate_iff_shape _ (JObj dms')).
   rewrite (shape_ok_perm ms nl an dms dms' HP). reflexivity.
 Qed.
 
